@@ -40,7 +40,7 @@ def cut_baseline(records, n_before=48, n_after=30):
             d.data[:n_before] = 0
 
         clear_from = d.pulse_length - n_after
-        clear_from -= d.record_i.astype(np.int32) * samples_per_record
+        clear_from -= np.int32(d.record_i) * samples_per_record
         clear_from = max(0, clear_from)
         if clear_from < samples_per_record:
             d.data[clear_from:] = 0
